@@ -299,8 +299,9 @@ class SimulationMaximumStep(SimulationWithJumpTimes):
                 positions = np.flatnonzero(aug_dts > epsilon)
             aug_jump_times = np.cumsum(aug_dts)
 
-            # without the maturity itself
-            return aug_jump_times[:-1], aug_jump_values[..., :-1]
+            # without the maturity itself (nor a point that rounding puts on it)
+            before_maturity = aug_jump_times < maturity
+            return aug_jump_times[before_maturity], aug_jump_values[..., before_maturity]
 
         return _build_finer_grid_default if epsilon >= maturity else _build_finer_grid
 
